@@ -38,3 +38,35 @@ add("C19", "fault_enumeration", "fault injection in the user callable at every c
 add("C20", "exploration", "runtime monitor of delivered values: complete input axis 0..32768 per sampled parameter tuple through a real in-project MultiCtl and through convert_value; macro on every target",
     "MultiCtl.macro on every (type, attached controller) and on random groups, refusal probes (17+ targets, two per module); delivery through real links with random windows/orientation/gain/quantization/monotone curves checked for range containment, monotonicity and untouched targets of unset mappings.",
     TB, "DESIGN.md 2/C20")
+
+TB2 = "CPython 3.12, rvmon.snapshot (attribute catalogue), rvmon.gen/build (AD generator and randomised API histories)"
+add("C01", "exploration", "round-trip monitor over generated API histories: snapshot(load(save(build(AD)))) == norm(snapshot) through the attribute catalogue, with ambient contracts (links_consistent, index_coherent, save_is_pure)",
+    "Generated projects (all 42 attachable types round-robin, empty positions, link graphs, patterns/clones/empty slots, width-boundary project fields, Unicode names straddling the 32-byte limit) built through randomised public API histories, saved, loaded and compared field by field; the build itself is gated against the description.",
+    TB2 + "; normalisation limited to the storage limits named in the property (DESIGN 1.4)", "DESIGN.md 2/C01")
+add("C02", "exploration", "round-trip monitor per module type through three serialisation contexts (Synth, clone(), in-project) against the attribute catalogue",
+    "Every one of the 42 non-Output types is generated (boundary-biased controllers under random units, options, MIDI bindings, payload arrays within element types) and pushed through Synth save/load, Module.clone() and a project save/load; all three results must equal the original; Synth() without module must refuse without writing.",
+    TB2, "DESIGN.md 2/C02")
+add("C03", "exploration", "independent decoder (built from the format documentation, no rv import) as an output monitor on every file written by the workloads; structural rules + decoded content == public state",
+    "Every file written by the C01/C02/C15/C16 workloads is parsed completely by rvmon.refcodec; structural rules of the property are asserted on each file and each decoded field is compared with the object's public state (so symmetric writer+reader errors are visible). The oracle is calibrated against the 52 SunVox-written fixtures on every run.",
+    "rvmon.refcodec/iffparse/spec (no rv import, enforced in setup.sh); interpretive decisions DESIGN.md 1.5", "DESIGN.md 2/C03")
+add("C04", "exploration", "independent reference encoder + structure-preserving edit families as input generators; loaded public state compared with what the documented encoding denotes",
+    "Reference-encoded descriptions with encoder choices rv never makes; all fixtures against the independent decoder; an unknown chunk at every chunk boundary (also inside embedded projects/effects); each optional chunk dropped; CVAL lists truncated at every length; module positions and link consistency checked.",
+    "rvmon.refcodec (encoder+decoder), documents as listed in DESIGN.md 1.5", "DESIGN.md 2/C04")
+add("C05", "exploration", "history checker over repeated load/save cycles on fixtures, generated files and structure-preserving byte mutants; save_is_pure monitor on every write",
+    "Up to 4 cycles per loadable file: Y=save(load(X)) must load and be reproduced byte for byte by every later cycle; CVAL/option/link/note/CMID bytes are mutated to arbitrary incl. out-of-range values; purity (snapshot before == after, two saves equal) on every save.",
+    TB2 + ", rvmon.iffparse for mutations", "DESIGN.md 2/C05")
+add("C06", "exploration", "differential monitor: load -> one catalogued public edit -> snapshot -> save -> load -> snapshot, over the whole attribute catalogue of each file",
+    "For every fixture and generated files, every serialized attribute class in the catalogue of the loaded object (project fields, common module fields, controllers, options, MIDI bindings, payload elements incl. sampler samples/envelopes/maps/effect and embedded projects, pattern fields and cells) is edited to a new in-domain value; the edit must be visible, isolated (known couplings excepted) and survive save/load.",
+    TB2, "DESIGN.md 2/C06")
+add("C08", "exploration", "round-trip monitor over reachable link-table states and file variants built without rv (SLnK all-present / subset / all-absent / trailing -1) + links_consistent after every load",
+    "All link-table states reachable for N=3 within depth 2 of the C07 alphabet (sampled on quick) and random graphs for N<=8 (cycles, fan-in/out, interior freed slots, links to output) are saved and loaded natively and through four file variants; tables must be equal up to trailing freed slots (edges + consistency for the all-absent variant).",
+    "rvmon.iffparse; C07 operand alphabet", "DESIGN.md 2/C08")
+add("C15", "exploration", "recursive round-trip monitor on generated MetaModules in three contexts + independent count of CVAL/label/mapping chunks in the written bytes",
+    "MetaModules with forced nesting (depth 0..2 quick, 0..3 thorough), counts {0,1,2,3,27,95,96,random}, mappings onto every controller kind incl. unset/dangling, labels at arbitrary indices; compared stand-alone, cloned and in-project through the catalogue (embedded project recursively, count, labels, mappings, visible and stored user values); exactly 5+n CVALs.",
+    TB2 + ", rvmon.iffparse", "DESIGN.md 2/C15")
+add("C16", "exploration", "round-trip monitor + independent decode of the instrument record / sample headers / envelope chunks at documented offsets; legacy fixture variants built without rv",
+    "Generated samplers (slot subsets incl. 0 and 127, every format x channel, odd byte tails, width-boundary header fields, 0..64-point envelopes at 16-bit extremes, note maps, vibrato, editor fields, effects of any type) through synth/clone/project; the 400-byte record is decoded at documented offsets; legacy variants (no envelope chunks with randomised legacy fields, wiped signature, truncated record) are checked against y*0x200+range_min and for no data loss on re-save.",
+    TB2 + ", rvmon.refcodec", "DESIGN.md 2/C16")
+add("C17", "exploration", "differential isolation monitor (mutate A, observe snapshot+bytes of B and of long-lived sentinels) + structural alias scan of instance state",
+    "For all 43 types, Project, Pattern, PatternClone, Synth: B is a fresh instance, a clone (both directions), a second load of the same bytes, or a generated-vs-fresh pair; every catalogued mutation class of A is applied and B must not move; an alias scan walks __dict__/slots/containers of both and reports any shared mutable object; sentinels of every type are re-checked after each type.",
+    TB2, "DESIGN.md 2/C17")
